@@ -190,6 +190,7 @@ Ev(C, e, x0, inv, rn) ==
              st1 == CASE n.op = "set" -> [st EXCEPT ![n.key] = n.arg]
                       [] n.op = "inc" -> [st EXCEPT ![n.key] = (IF @ = -1 THEN 0 ELSE @) + n.arg]
                       [] n.op = "app" -> [st EXCEPT !.cl = Append(@, n.arg)]
+                      [] n.op = "del" -> [st EXCEPT ![n.key] = -1]
                       [] OTHER -> st
              x1 == [x EXCEPT !.log = Append(@, ev), !.store = st1, !.g = @ + n.g]
          IN IF n.blk = C.opt.panicblk
